@@ -646,6 +646,26 @@ class Tensor:
             return tuple(tm.IZERO if o else i for o, i in zip(ones, sub))
         return self._view(tuple(shape), fwd, False)
 
+    def repeat(self, *sizes):
+        """torch contract: a NEW tensor (own storage) of shape sizes[k] * shape[k], element idx reads self at idx mod shape"""
+        if len(sizes) == 1 and isinstance(sizes[0], (tuple, list)):
+            sizes = tuple(sizes[0])
+        n, m = len(sizes), len(self._shape)
+        if n < m:
+            raise TorchRuntimeError('repeat: number of sizes smaller than the number of dims')
+        sizes = [norm_int(s) for s in sizes]
+        src = (1,) * (n - m) + tuple(self._shape)
+        shape = tuple(s if is_one(c) else (c if is_one(s) else _mul_int(s, c)) for s, c in zip(sizes, src))
+        rd = self.reader()
+
+        def elem(idx):
+            sub = []
+            for k in range(n - m, n):
+                c = src[k]
+                sub.append(tm.IZERO if is_one(c) else (idx[k] if is_one(sizes[k]) else tm.mod(idx[k], ti(c))))
+            return rd(tuple(sub))
+        return Tensor.fresh(elem, shape, self.dtype, self.deps)
+
     def expand_as(self, other):
         return self.expand(*other._shape)
 
